@@ -446,7 +446,7 @@ var DirectiveType = &schema.ObjectType{
 			Type: schema.NewNonNullType(schema.NewListType(schema.NewNonNullType(InputValueType))),
 			Cost: schema.FieldResolverCost(0),
 			Resolve: func(ctx schema.FieldContext) (interface{}, error) {
-				return inputValues(ctx.Object.(directive).Definition.Arguments)
+				return inputValues(ctx.Object.(directive).Definition.VisibleArguments(ctx.Features))
 			},
 		},
 	},
